@@ -120,3 +120,8 @@ Qed.
    finite constant is printed as digits (and then rounded by the C compiler) *)
 Lemma emit_inf_guard : EMIT_INF_GUARD_IS_ISINFINITE = true.
 Proof. reflexivity. Qed.
+
+(* scraped fact (trip-wire, 2e78fcf): a float32 constant is rounded to the nearest float32 - overflow threshold
+   FLT_MAX + half ulp included - before its 9 digit text is printed *)
+Lemma emit_f32_rounded_first : EMIT_F32_ROUNDED_BEFORE_PRINTING = true.
+Proof. reflexivity. Qed.
